@@ -157,7 +157,8 @@ inline void run_man(const ManProg &p) {
 // One scenario, three hosting modes: 0 single-thread start(awaitable), 1 thread mode,
 // 2 thread-pool mode.  Sleepers are coroutines (or blocking threads in modes 1/2) with a
 // generated duration and id; cancellers sleep and then cancel an id; optional interval().
-struct Sleeper { uint8_t dur; uint8_t id; uint8_t kind; uint8_t busy = 0; };   // busy: ms of blocking work the sleeper does right after it woke (occupies the thread that resumed it)
+struct Sleeper { uint8_t dur; uint8_t id; uint8_t kind; uint8_t busy = 0; uint8_t recursive = 0; };   // recursive: after it woke the sleeper serves the scheduler itself with a nested start(sleep 5ms) (documented: start may be used recursively)
+//   // busy: ms of blocking work the sleeper does right after it woke (occupies the thread that resumed it)
 //    // kind 0 coroutine sleeper, 1 blocking thread sleeper (modes 1/2), 2 canceller
 struct RunProg { uint8_t mode; uint8_t pool_threads; std::vector<Sleeper> sl; uint8_t interval; bool wait_first; bool destroy_pending; };
 
@@ -178,6 +179,8 @@ inline RunProg decode_run(hz::Reader &r) {
     // a sleeper that keeps the thread which woke it busy: the others must still be woken on time as long as a worker is idle
     unsigned nb = r.mod(3);
     for (unsigned k = 0; k < nb && k < p.sl.size(); k++) { Sleeper &x = p.sl[r.mod((unsigned)p.sl.size())]; if (x.kind == 0) x.busy = (uint8_t)(15 * (1 + r.mod(2))); }
+    // (a recursive start() from inside a coroutine is NOT generated: two worker coroutines on one thread never find the ready
+    //  queue empty, so neither blocks - they poll until the deadline passes in REAL time, which never happens under virtual time)
     return p;
 }
 inline std::string describe_run(const RunProg &p) {
@@ -186,7 +189,7 @@ inline std::string describe_run(const RunProg &p) {
     hz::Desc d; d << modes[p.mode];
     if (p.mode == 2) d << "(" << (unsigned)p.pool_threads << " workers)";
     d << ":";
-    for (auto &s : p.sl) { d << " [" << kinds[s.kind] << " " << (unsigned)s.dur << "ms id" << (unsigned)s.id; if (s.busy) d << ", then busy " << (unsigned)s.busy << "ms"; d << "]"; }
+    for (auto &s : p.sl) { d << " [" << kinds[s.kind] << " " << (unsigned)s.dur << "ms id" << (unsigned)s.id; if (s.busy) d << ", then busy " << (unsigned)s.busy << "ms"; if (s.recursive) d << ", then a nested start(sleep 5ms)"; d << "]"; }
     if (p.interval) d << (p.interval == 1 ? " + interval(10ms) stopped through its stop token" : " + interval(10ms) 2 ticks consumed");
     if (p.mode) d << (p.wait_first ? "; owner waits for the sleeps, then destroys" : "; owner destroys") << (p.destroy_pending ? " with an extra 1h sleep pending" : "");
     return d.s;
@@ -200,7 +203,7 @@ struct RunCtx {
     std::vector<SRec> rec;
     int order = 0;
     int done = 0;
-    long ticks = 0; int interval_code = -100;
+    long ticks = 0; int interval_code = -100; int recursive_done = 0;
     bool any_busy() const { for (auto &x : p->sl) if (x.busy) return true; return false; }
     unsigned workers() const { return p->mode == 2 ? p->pool_threads : p->mode == 3 ? 2 : 1; }
 
@@ -213,6 +216,15 @@ struct RunCtx {
         catch (const cocls::await_canceled_exception &) { code = -1; }
         r.woke = now_ms(); r.code = code; r.order = hz::tick();
         if (x.busy) { r.busy_until = r.woke + x.busy; vrt::sleep_until((uint64_t)r.busy_until * 1000000ull); }
+        if (x.recursive) {
+            // recursive use of the scheduler from inside a coroutine it runs: the nested start() serves every due sleep
+            // itself until its own awaitable completes, so nobody is delayed
+            long t0 = now_ms();
+            auto nested = s->sleep_until(at_ms(t0 + 5), nullptr);
+            try { s->start(nested); } catch (const cocls::await_canceled_exception &) {}
+            HZ_CHECK(now_ms() >= t0 + 5 || any_busy(), "nested start(sleep 5ms) returned after %ld ms", now_ms() - t0);
+            recursive_done++;
+        }
     }
     cocls::async<void> canceller(size_t i) {
         const Sleeper &x = p->sl[i];
